@@ -6,6 +6,7 @@
 #include <functional>
 #include <typeinfo>
 #include <exception>
+#include <type_traits>
 #include <iostream>
 #include <map>
 
@@ -46,7 +47,19 @@ static T mk_bits(const std::string& h, unsigned nbits) {
 }
 template <class T>
 static std::string out_bits(const T& v, unsigned nbits) {
-	return hex_from_bits(nbits, [&](unsigned i) { return v.at(i); });
+	std::string h = hex_from_bits(nbits, [&](unsigned i) { return v.at(i); });
+#ifdef CHECK_CANONICAL
+	// C20: no bits set outside the type's width -- rebuild the value from its nbits visible bits in zeroed storage and
+	// compare the complete object representation
+	if constexpr (std::is_trivially_copyable_v<T> && requires(T t) { t.setbits(0ull); }) {
+		T w; memset((void*)&w, 0, sizeof(T));
+		if (nbits <= 64) w.setbits(strtoull(h.c_str(), nullptr, 16));
+		else { w.setbits(0); for (unsigned i = 0; i < nbits; ++i) if constexpr (requires(T t) { t.setbit(0u, true); }) w.setbit(i, v.at(i)); }
+		T u; memset((void*)&u, 0, sizeof(T)); u = v;
+		if (memcmp((const void*)&u, (const void*)&w, sizeof(T)) != 0) return "!stale:" + h;
+	}
+#endif
+	return h;
 }
 static inline std::string hex_of_vec(const std::vector<bool>& b) {
 	return hex_from_bits((unsigned)b.size(), [&](unsigned i) { return (bool)b[i]; });
@@ -141,6 +154,20 @@ static std::string parse_group(int argc, char** argv, const std::string& dflt) {
 	if (grp == "intconv") { g_int_only = true; return "conv"; }
 	return grp;
 }
+#ifdef SAN_TRACE
+// C20: sanitizer builds.  The UBSan / ASan runtimes call these hooks when they are about to print a report; the report becomes
+// part of the case's result ("!ubsan:<kind>@<file>:<line>") so that it is attributed to the operands that triggered it.
+static std::string g_curcase, g_ubhit;
+extern "C" void __ubsan_get_current_report_data(const char** kind, const char** msg, const char** file, unsigned* line, unsigned* col, char** addr);
+extern "C" void __ubsan_on_report(void) {
+	const char *k = "", *m = "", *f = ""; unsigned l = 0, c = 0; char* a = nullptr;
+	__ubsan_get_current_report_data(&k, &m, &f, &l, &c, &a);
+	const char* base = strrchr(f, '/'); base = base ? base + 1 : f;
+	if (g_ubhit.empty()) g_ubhit = std::string("!ubsan:") + k + "@" + base + ":" + std::to_string(l);
+	fprintf(stderr, "UBSAN-CASE %s\n", g_curcase.c_str());
+}
+extern "C" void __asan_on_error(void) { fprintf(stderr, "ASAN-CASE %s\n", g_curcase.c_str()); }
+#endif
 static void emit_case(Runner& r, int op, const std::vector<std::string>& a) {
 	if (op < g_op_lo || op > g_op_hi) return;
 	if (g_int_only && op != OP_from_int && op != OP_from_uint && op != OP_to_int) return;
@@ -149,7 +176,17 @@ static void emit_case(Runner& r, int op, const std::vector<std::string>& a) {
 	static std::map<std::pair<Runner*, int>, int> hits;
 	std::string res;
 	if (hits[{&r, op}] >= 3) res = "!SIG14";
-	else { res = r.run(op, a); if (res == "!SIG14") ++hits[{&r, op}]; }
+	else {
+#ifdef SAN_TRACE
+		g_curcase = std::to_string(r.fam) + " " + r.cfg + " " + std::to_string(op) + " ";
+		for (size_t i = 0; i < a.size(); ++i) g_curcase += (i ? "," : "") + a[i];
+		g_ubhit.clear();
+#endif
+		res = r.run(op, a); if (res == "!SIG14") ++hits[{&r, op}];
+#ifdef SAN_TRACE
+		if (!g_ubhit.empty()) res = g_ubhit;
+#endif
+	}
 	printf("%d %s %d ", r.fam, r.cfg.c_str(), op);
 	if (a.empty()) printf("-");
 	for (size_t i = 0; i < a.size(); ++i) printf("%s%s", i ? "," : "", a[i].c_str());
